@@ -136,6 +136,28 @@ void run_conv(sink& out, std::vector<A> const& ls)
     }
 }
 
+// construction of overflow_integer<D, Tag> from a value of type A and from overflow_integer<A, Tag>, and the
+// wrapper's left shift: the usual ways user code reaches the checked conversion / shift
+template<class Tag, class A, class D>
+void run_conv_wrapper(sink& out, std::vector<A> const& ls)
+{
+    using WD = cnl::overflow_integer<D, Tag>;
+    using WA = cnl::overflow_integer<A, Tag>;
+    int id = add_inst(
+            out, ev("Inst").str("kind", "OvConvInt").str("op", "conv").str("tag", tagname<Tag>()).str("api", "wrapper_ctor")
+                         .str("path", VERIF_PATH).raw("lt", ty<A>()).raw("rt", ty<D>()).raw("res_t", ty<D>()));
+    int id2 = add_inst(
+            out, ev("Inst").str("kind", "OvConvInt").str("op", "conv").str("tag", tagname<Tag>()).str("api", "wrapper_to_wrapper")
+                         .str("path", VERIF_PATH).raw("lt", ty<A>()).raw("rt", ty<D>()).raw("res_t", ty<D>()));
+    for (A a : ls) {
+        D res{};
+        auto o = guarded([&] { res = cnl::_impl::to_rep(WD{a}); });
+        out.put(ev("OvConvInt").num("i", id).raw("l", enc(a)).raw("res", o == "ok" ? enc(res) : "[0]").str("out", o).s);
+        o = guarded([&] { res = cnl::_impl::to_rep(WD{WA{a}}); });
+        out.put(ev("OvConvInt").num("i", id2).raw("l", enc(a)).raw("res", o == "ok" ? enc(res) : "[0]").str("out", o).s);
+    }
+}
+
 // floating-point source -> integer destination D under an overflow tag: values around both range bounds
 template<class Tag, class F, class D>
 void run_conv_float(sink& out)
@@ -194,6 +216,7 @@ void family(sink& out, bool full)
     auto bl = thorough() ? all_values_or_boundary<L>() : boundary<L>(1);
     run_bin<shift_left_op, Tag>(out, "shl", bl, shift_counts<R>());
     run_conv<Tag, L, R>(out, operands<L>(thorough() ? 200 : 20, LHS_INDEX * 100 + 4, thorough() ? 2 : 1));
+    run_conv_wrapper<Tag, L, R>(out, operands<L>(thorough() ? 100 : 10, LHS_INDEX * 100 + 5, thorough() ? 2 : 1));
     if (full) {
         auto bls = boundary<L>(0);
         auto brs = boundary<R>(0);
@@ -201,6 +224,7 @@ void family(sink& out, bool full)
         run_bin_wrapper<subtract_op, Tag>(out, "sub", bls, brs);
         run_bin_wrapper<multiply_op, Tag>(out, "mul", bls, brs);
         run_bin_wrapper<divide_op, Tag>(out, "div", bls, brs);
+        run_bin_wrapper<shift_left_op, Tag>(out, "shl", bls, shift_counts<R>());
     }
 }
 
